@@ -459,6 +459,74 @@ fn all_indices(ctx: &Ctx, rep: &mut Report) {
     rep.parts.push(json!({"part":"all-indices","cases":n}));
 }
 
+/// "the printed cell reports exactly that pen" - also when the cell already held the same
+/// character under another pen: every ordered pair of pens from a base list, and for every
+/// palette index 16..=255 every ordered pair among its indexed and its direct-colour spelling
+/// (the xterm cube / grey ramp value), foreground and background, for a letter and a typed
+/// blank. Differential: the repainted cell must be the cell of a terminal that only ever saw
+/// the second pen.
+fn repaint(ctx: &Ctx, rep: &mut Report) {
+    let base = ["", "1", "2", "3", "4", "5", "7", "9", "31", "91", "38;5;1", "38;5;9", "38;2;205;0;0", "38;2;255;0;0", "38;2;0;0;0", "41", "101", "48;5;1", "48;2;205;0;0", "48;2;0;0;0", "38;5;0", "48;5;0", "38;5;15", "38;2;255;255;255"];
+    let cube = |n: u32| -> (u32, u32, u32) {
+        if n >= 232 {
+            let v = 8 + 10 * (n - 232);
+            (v, v, v)
+        } else {
+            let i = n - 16;
+            let l = [0u32, 95, 135, 175, 215, 255];
+            (l[(i / 36) as usize], l[((i / 6) % 6) as usize], l[(i % 6) as usize])
+        }
+    };
+    let mut pairs: Vec<(String, String)> = vec![];
+    for a in base {
+        for b in base {
+            pairs.push((a.to_string(), b.to_string()));
+        }
+    }
+    for n in 16u32..=255 {
+        let (r, g, b) = cube(n);
+        let v = [format!("38;5;{}", n), format!("38;2;{};{};{}", r, g, b), format!("48;5;{}", n), format!("48;2;{};{};{}", r, g, b), String::new(), format!("38:5:{}", n), format!("38:2:{}:{}:{}", r, g, b)];
+        for a in &v {
+            for b2 in &v {
+                pairs.push((a.clone(), b2.clone()));
+            }
+        }
+    }
+    let bad: Vec<String> = pairs
+        .par_iter()
+        .filter_map(|(a, b)| {
+            let r = crate::engine::guarded(|| {
+                for ch in ["X", " ", "\u{6f22}"] {
+                    for mid in ["\r", "\x1b[1;1H", "\x08\x08"] {
+                        let mut vt = build_vt(4, 2, None);
+                        let _ = vt.feed_str(&format!("\x1b[0;{}m{}{}\x1b[0;{}m{}", a, ch, mid, b, ch));
+                        let mut w = build_vt(4, 2, None);
+                        let _ = w.feed_str(&format!("\x1b[0;{}m{}", b, ch));
+                        let (x, y) = (crate::obs::obs(&vt), crate::obs::obs(&w));
+                        if x.rows != y.rows {
+                            return Some(format!("{:?} printed under SGR {} and again in the same cell under SGR {}: row 0 is {:?}; printed under SGR {} alone: {:?}", ch, a, b, x.rows[0], b, y.rows[0]));
+                        }
+                    }
+                }
+                None
+            });
+            match r {
+                Ok(x) => x,
+                Err(m) => Some(format!("SGR {} then SGR {}: panic: {}", a, b, m)),
+            }
+        })
+        .collect();
+    let n = pairs.len() as u64 * 9;
+    rep.evaluations += n;
+    rep.traces_validated += n;
+    rep.parts.push(json!({"part":"repaint-under-another-pen","pen_pairs":pairs.len(),"runs":n,"violating":bad.len()}));
+    println!("part repaint-under-another-pen: {} ordered pen pairs x 3 characters x 3 ways back, {} violating", pairs.len(), bad.len());
+    if let Some(d) = bad.first() {
+        emit_violation(ctx, rep, "C08", json!({"part":"repaint-under-another-pen","oracle":"printed-cell-pen","observed":d}));
+        rep.violations += bad.len() as u64 - 1;
+    }
+}
+
 fn blank_part(tier: Tier) -> Part<'static, LockStep> {
     Part {
         name: "every-way-of-blanking",
@@ -482,6 +550,7 @@ pub fn run(ctx: &Ctx) -> Report {
     run_part(ctx, &mut rep, &blank_part(ctx.tier));
     combos(ctx, &mut rep);
     all_indices(ctx, &mut rep);
+    repaint(ctx, &mut rep);
     long_sequences(ctx, &mut rep);
     after_aborted(ctx, &mut rep);
     every_value(ctx, &mut rep);
@@ -494,11 +563,12 @@ pub fn run(ctx: &Ctx) -> Report {
 pub fn replay(ctx: &Ctx, v: &Value) -> bool {
     match v["part"].as_str().unwrap_or("") {
         "every-mode-number" => super::sweep::mode_number_replay(ctx, &SYS),
-        "parameter-combinations" | "all-indices" | "long-sequences" | "after-aborted-sequences" | "every-parameter-value" => {
+        "parameter-combinations" | "all-indices" | "long-sequences" | "after-aborted-sequences" | "every-parameter-value" | "repaint-under-another-pen" => {
             let mut rep = Report::new();
             let c2 = Ctx { id: ctx.id.clone(), tier: if v["tier"] == "thorough" { Tier::Thorough } else { Tier::Quick }, seed: 0, start: ctx.start, known: ctx.known.clone(), replay_dir: ctx.replay_dir.clone() };
             combos(&c2, &mut rep);
             all_indices(&c2, &mut rep);
+            repaint(&c2, &mut rep);
             long_sequences(&c2, &mut rep);
             after_aborted(&c2, &mut rep);
             every_value(&c2, &mut rep);
